@@ -1553,6 +1553,76 @@ fn gen_c01(tier: &str, r: &Rng, o: &mut Out<'_>) {
     o.meta("plans", "well-formed, hostile-PSI, dispatcher and random streams, mutated (bit flips, length-field edits, drops, duplicates, swaps), pushed whole / packet-aligned / at arbitrary byte offsets; both builds (cfg(fuzzing) bypasses the CRC); every callback touches every accessor and Debug impl");
 }
 
+
+// ---------------------------------------------------------------- C19: zero-copy, steady state, bounded
+
+fn gen_c19(tier: &str, r: &Rng, o: &mut Out<'_>) {
+    let thorough = tier == "thorough";
+    let n = if thorough { 20_000 } else { 600 };
+    for i in 0..n {
+        // warm-up: every table applied, every PID seen; then steady pushes: more PES + repeated tables
+        let mut m = Mux::new(r);
+        let mut used = vec![0u16, 0x1fff];
+        let mut progs = rand_progs(r, 1 + r.below(3) as usize, 4, &mut used);
+        if i % 3 == 0 { for p in progs.iter_mut() { for _ in 0..15 { p.prog_desc.extend(rand_desc(r)); } } }
+        let pat = pat_section(5, r.byte() & 31, &pat_of(&progs, None));
+        let mut warm = m.section(0, &pat, &plan_for(r, &pat));
+        for p in progs.iter() { let s = pmt_of(p); warm.extend(m.section(p.pmt_pid, &s, &plan_for(r, &s))); }
+        let use_null = r.chance(1, 2);
+        if use_null { warm.push(null_pkt(r)); }
+        for p in progs.iter() { for (st, pid, _) in p.streams.iter() {
+            if PES_TYPES.contains(st) { warm.extend(m.pes(*pid, &rand_pes(r, 300), false)); } else { warm.push(m.raw(*pid, false, &r.bytes(100))); }
+        } }
+        let mut pushes = vec![concat(&warm)];
+        for _ in 0..(1 + r.below(4)) {
+            let mut qs = vec![];
+            for p in progs.iter() { for (st, pid, _) in p.streams.iter() {
+                let mut q = vec![];
+                for _ in 0..(1 + r.below(3)) {
+                    if PES_TYPES.contains(st) { q.extend(m.pes(*pid, &rand_pes(r, 500), r.chance(1, 4))); if r.chance(1, 4) { q.push(m.af_only(*pid)); } }
+                    else { q.push(m.raw(*pid, r.chance(1, 2), &r.bytes(1 + r.below(184) as usize))); }
+                }
+                qs.push(q);
+            } }
+            let mut q = vec![]; for _ in 0..(1 + r.below(3)) { q.extend(m.section(0, &pat, &plan_for(r, &pat))); } qs.push(q);
+            for p in progs.iter() { let s = pmt_of(p); let mut q = vec![]; for _ in 0..(1 + r.below(3)) { q.extend(m.section(p.pmt_pid, &s, &plan_for(r, &s))); } qs.push(q); }
+            if use_null { qs.push((0..r.below(3)).map(|_| null_pkt(r)).collect()); }
+            pushes.push(concat(&interleave(r, qs)));
+        }
+        let id = o.d(&format!("steady b0t0 {}", pushes.iter().map(|p| hex(p)).collect::<Vec<_>>().join(" ")));
+        let zeros = vec!["0"; pushes.len() - 1].join(",");
+        o.expect(&id, &format!("allocs={} constructs={} copied=0", zeros, zeros));
+    }
+    // bounded retention: the same hostile block pushed again and again must reach a plateau
+    let nb = if thorough { 3_000 } else { 150 };
+    for i in 0..nb {
+        let mut pkts = match i % 4 {
+            0 => hostile_psi_stream(r),
+            1 => dispatcher_stream(r, 20 + r.below(60) as usize, true),
+            2 => { let mut p = wf_mux(r, 2, 3, 2, 300, true); mutate(r, &mut p); p }
+            _ => { let mut p = hostile_psi_stream(r); p.extend(dispatcher_stream(r, 30, false)); mutate(r, &mut p); p }
+        };
+        if pkts.is_empty() { pkts.push(null_pkt(r)); }
+        let id = o.d(&format!("retain b0t0 {} 12", hex(&concat(&pkts))));
+        o.expect(&id, "plateau");
+    }
+    // zero-copy: ES payload ranges and single-packet sections are sub-slices of the pushed buffer
+    let nz = if thorough { 10_000 } else { 400 };
+    for _ in 0..nz {
+        let pkts = wf_mux(r, 1 + r.below(2) as usize, 3, 2, 400, true);
+        emit(o, true, "b0t0", &rand_pushes(r, &pkts));
+    }
+    for &syntax in [true, false].iter() {
+        for sl in (0..=180usize).step_by(if thorough { 1 } else { 7 }) {
+            let sec = rand_section(r, syntax, sl.max(if syntax { 5 } else { 0 }));
+            let mut cc = 0;
+            let pk = packetize_section(r, 0x100, &mut cc, &sec, &SecPlan { pre: vec![], first: sec.len(), conts: vec![], trailing_stuff: r.chance(1, 2) });
+            o.d(&format!("sec {} {}", if syntax { "s" } else { "c" }, join(&pk)));
+        }
+    }
+    o.meta("plans", "steady-state pushes (allocations counted by a global allocator, callbacks in quiet mode), hostile blocks pushed 12x (live heap bytes must plateau), ES payload / single-packet section ranges inside the pushed buffer");
+}
+
 /// fixed demonstration inputs for the recorded findings (used to build known_findings.json)
 fn gen_probes(r: &Rng, o: &mut Out<'_>) {
     // F2: PAT with one CRC bit flipped, then the intact PAT (same version) three times
@@ -1602,6 +1672,7 @@ pub fn generate(prop: &str, tier: &str, seed: u64, w: &mut dyn Write) {
         "C05" => gen_c05(tier, &r, &mut o),
         "C11" => gen_c11(tier, &r, &mut o),
         "C01" => gen_c01(tier, &r, &mut o),
+        "C19" => gen_c19(tier, &r, &mut o),
         "C03" => gen_c03(tier, &r, &mut o),
         "C02" => gen_c02(tier, &r, &mut o),
         "C06" => gen_c06(tier, &r, &mut o),
